@@ -241,7 +241,7 @@ def behaviours(size):
     """List of (own, op).  Sizes: "full" > "mid" > "small" > "tiny"."""
     out = []
     if size == "full":
-        ops = [""] + [f"{o}:{n}" for o in "PGNHhIJSQ" for n in NAMES] + ["Hp"]
+        ops = [""] + [f"{o}:{n}" for o in "PGNHhI" for n in NAMES] + ["J:b", "S:a", "Q:a", "Hp"]
         for own in _own_combos(NAMES):
             for op in ops:
                 pg = op_popget(op)
@@ -257,7 +257,7 @@ def behaviours(size):
     elif size == "med":
         out = [("", ""), ("a", ""), ("A", ""), ("", "P:a"), ("", "G:a"), ("", "N:a"), ("", "H:a"), ("a", "H:a"), ("", "Hp"), ("b", "")]
     elif size == "small+":
-        out = [("", ""), ("a", ""), ("A", ""), ("", "P:a"), ("", "G:a"), ("", "H:a"), ("", "h:a"), ("", "I:b")]
+        out = [("", ""), ("a", ""), ("A", ""), ("", "P:a"), ("", "G:a"), ("", "H:a"), ("", "h:a"), ("", "I:b"), ("", "Hp"), ("ab", "")]
     elif size == "small":
         out = [("", ""), ("a", ""), ("A", ""), ("", "P:a"), ("", "G:a"), ("", "H:a")]
     elif size == "tiny4":
